@@ -430,11 +430,14 @@ package internal
 //@   ensures result1 == nil ==> allRefsNonNil(result0)                # name: refs-non-nil
 //@   ensures upstreamCalls == old(upstreamCalls)
 
+// loadedFrom(e): the response ID a stored entry was loaded under
+//@ spec func loadedFrom(e *Response) string
 //@ iface ResponseCache.Get(c, key, req)
 //@   property C10
 //@   pure
 //@   ensures upstreamCalls == old(upstreamCalls)
 //@   ensures (result0 != nil) != (result1 != nil)
+//@   ensures result0 != nil ==> loadedFrom(result0) == key                          # ghost-update
 //@   ensures result0 != nil ==> result0.Data != nil && result0.Data.Header != nil && fresh(result0) && fresh(result0.Data) && fresh(result0.Data.Header)
 
 //@ iface VaryMatcher.VaryHeadersMatch(m, entries, reqHdr)
@@ -442,6 +445,8 @@ package internal
 //@   assigns elems(entries)
 //@   ensures allRefsNonNil(entries)
 //@   ensures result1 ==> 0 <= result0 && result0 < len(entries)
+//@   ensures result1 ==> variantMatches(entries[result0], reqHdr)                          # name: found-variant-matches-the-request   props: C04
+//@   ensures !result1 ==> (forall j int :: 0 <= j && j < len(entries) ==> !variantMatches(entries[j], reqHdr))   # name: not-found-means-no-variant-matches   props: C09
 
 // ---- C06: what may reach the store -------------------------------------------------------------
 //@ spec func statusUnderstood(c int) bool = c == 200 || c == 203 || c == 301 || c == 304 || c == 404 || c == 405 || c == 410 || c == 414 || c == 501 || c == 308
@@ -474,14 +479,21 @@ package internal
 //@   property C06
 //@   requires entry != nil && entry.Data != nil                                     # name: entry-well-formed
 //@   requires storableStatus(entry.Data.StatusCode)                                 # name: status-storable
-//@   assigns storeWrites, lastSetOK, entry.Data.Body, bodyReadFailed
-//@   ensures lastSetOK == (result == nil)                                           # ghost-update
+//@   assigns storeWrites, lastSetOK, lastSetKey, entry.Data.Body, bodyReadFailed
+//@   ensures lastSetOK == (result == nil) && lastSetKey == key                      # ghost-update
 //@   ensures bodyReadFailed ==> result != nil && storeWrites == old(storeWrites)    # name: unreadable-body-not-written
 // lastRefs: the index most recently handed to SetRefs (C19)
 //@ ghost var lastRefs ResponseRefs
+// lastSetKey: the response ID most recently handed to Set (C04)
+//@ ghost var lastSetKey string
+// keyFor(vr): the response ID the configured VaryKeyer derives from a resolved-values map
+//@ spec func keyFor(urlKey string, vr map[string]string) string
 //@ iface ResponseCache.SetRefs(c, key, refs)
-//@   property C06 C19
+//@   property C06 C19 C04
 //@   requires lastSetOK                                                             # name: entry-was-stored
+//@   requires len(refs) > 0 && refs[len(refs)-1] != nil && refs[len(refs)-1].ResponseID == lastSetKey      # name: newest-reference-names-the-entry-just-stored   props: C04
+//@   requires refs[len(refs)-1].ResponseID == keyFor(key, refs[len(refs)-1].VaryResolved)                    # name: id-derived-from-the-references-own-values   props: C04
+//@   requires forall j int :: 0 <= j && j < len(refs)-1 ==> refs[j] != nil && !sameVariantS(refs[j], refs[len(refs)-1].ResponseID, refs[len(refs)-1].VaryResolved)    # name: one-reference-per-variant   props: C04 C19
 //@   assigns storeWrites, lastRefs
 //@   ensures lastRefs == refs                                                       # ghost-update
 // deletedKeys: the keys passed to ResponseCache.Delete during this exchange (C07, C19)
@@ -502,7 +514,7 @@ package internal
 //@   requires storableReq(req)                                                      # name: request-storable
 //@   requires storableResp(resp)                                                    # name: response-storable
 //@   requires refs == indexRead || len(refs) == 0                                   # name: refs-is-the-index-read-in-this-exchange   props: C08
-//@   assigns storeWrites, lastSetOK, lastRefs, bodyReadFailed, map(resp.Header), resp.Body, now, lastStoredResp, lastStoredReqTime, lastStoredRespTime, lastStoredRefIndex
+//@   assigns storeWrites, lastSetOK, lastSetKey, lastRefs, bodyReadFailed, map(resp.Header), resp.Body, now, lastStoredResp, lastStoredReqTime, lastStoredRespTime, lastStoredRefIndex
 //@   ensures resp.Header != nil
 //@   ensures lastStoredResp == resp && lastStoredReqTime == reqTime && lastStoredRespTime == respTime && lastStoredRefIndex == refIndex     # ghost-update
 //@   ensures storeWrites >= old(storeWrites)                                        # ghost-update
@@ -589,7 +601,7 @@ package internal
 //@   let life = old(ctx.Freshness.UsefulLife)
 //@   let ageIn = old(fAge(ctx.Freshness, now))
 //@   let ageOut = old(satadd(max(ctx.Freshness.Age.Value, 0), max(tsub(now, ctx.Freshness.Age.Timestamp), 0)))
-//@   assigns storeWrites, lastSetOK, lastRefs, bodyReadFailed, deletedKeys, lastStoredResp, lastStoredReqTime, lastStoredRespTime, lastStoredRefIndex, now, map(ctx.Stored.Data.Header), map(resp.Header), resp.Body
+//@   assigns storeWrites, lastSetOK, lastSetKey, lastRefs, bodyReadFailed, deletedKeys, lastStoredResp, lastStoredReqTime, lastStoredRespTime, lastStoredRefIndex, now, map(ctx.Stored.Data.Header), map(resp.Header), resp.Body
 //@   ensures upstreamCalls == old(upstreamCalls)                                                   # name: no-upstream
 //@   ensures (result0 != nil) != (result1 != nil)                                                  # name: result-shape   props: C10
 //@   ensures result1 != nil ==> result1 == err                                                     # name: error-is-origin-error   props: C10
@@ -662,23 +674,48 @@ package internal
 //@   pure
 //@   requires a != nil && b != nil
 
+// normFirst(h, f): the normalised first line of request header f, "" when the request has none
+// (the cache's policy: absent and empty are the same selecting value).
+// variantMatches(e, h): reference e may answer a request with headers h - its Vary has no "*"
+// member and every nominated header has the value the stored response was selected by.
+//@ spec func normFirst(h http.Header, f string) string = ite(has(h, f) && len(get(h, f)) > 0, normValue(f, get(h, f)[0]), "")
+//@ spec func variantMatches(e *ResponseRef, h http.Header) bool = e.Vary != "*" && !has(e.VaryResolved, "*") && (forall f string :: has(e.VaryResolved, f) ==> get(e.VaryResolved, f) == normFirst(h, f))
 //@ func (*varyMatcher).varyHeadersMatchOne
 //@   property C04 C10
 //@   pure
 //@   requires vm != nil && vm.hvn != nil && entry != nil
-//@   ensures result ==> entry.Vary != "*"                                 # name: star-never-matches   props: C04
+//@   ensures result ==> entry.Vary != "*" && !has(entry.VaryResolved, "*")                                 # name: star-never-matches   props: C04
+//@   ensures result ==> (forall f string :: has(entry.VaryResolved, f) ==> get(entry.VaryResolved, f) == normFirst(reqHeader, f))   # name: every-nominated-header-equal   props: C04
+//@   ensures variantMatches(entry, reqHeader) ==> result                                                    # name: equal-selecting-values-match   props: C04 C09
+//@   loop 0 invariant forall f string :: visited(f) ==> get(entry.VaryResolved, f) == normFirst(reqHeader, f)
+
+// Two variants may share a response ID (it is a hash of the resolved values). sharesID(refs, i):
+// some other reference has the ID of refs[i] but was selected by different values - what is
+// stored under that ID may belong to either, so refs[i] must not be served from it.
+//@ spec func sameVR(a map[string]string, b map[string]string) bool = hasArr(a) == hasArr(b) && (forall k string :: has(b, k) ==> get(a, k) == get(b, k))
+//@ spec func collides(a *ResponseRef, b *ResponseRef) bool = a.ResponseID == b.ResponseID && !sameVR(a.VaryResolved, b.VaryResolved)
+//@ spec func sharesID(refs ResponseRefs, i int) bool = exists j int :: 0 <= j && j < len(refs) && j != i && collides(refs[j], refs[i])
+//@ func (ResponseRefs).SharesResponseID
+//@   property C04 C10
+//@   pure
+//@   requires 0 <= i && i < len(he) && allRefsNonNil(he)
+//@   ensures result == sharesID(he, i)                                      # name: exactly-when-another-variant-has-the-id   props: C04
+//@   loop 0 invariant -1 <= rangeindex && rangeindex < len(he)
+//@   loop 0 invariant forall j int :: 0 <= j && j <= rangeindex && j != i ==> !collides(he[j], he[i])
 
 //@ func (*varyMatcher).VaryHeadersMatch
 //@   implements VaryMatcher.VaryHeadersMatch
 //@   property C04 C10
 //@   requires vm != nil && vm.hvn != nil
 //@   loop 0 invariant -1 <= rangeindex && rangeindex < len(entries) && allRefsNonNil(entries)
+//@   loop 0 invariant forall j int :: 0 <= j && j <= rangeindex ==> !variantMatches(entries[j], reqHdr)
 
 //@ iface VaryHeaderNormalizer.NormalizeVaryHeader(n, vary, reqHeader)
 //@   pure
 //@   ensures result != nil
 //@ iface VaryKeyer.VaryKey(k, urlKey, varyHeaders)
 //@   pure
+//@   ensures result == keyFor(urlKey, varyHeaders)
 //@ func removeHopByHopHeaders
 //@   property C05 C06
 //@   nosafety
@@ -697,7 +734,7 @@ package internal
 //@   ensures result == sameVariantS(a, b.ResponseID, b.VaryResolved)            # name: id-and-values
 //@ func (*responseStorer).StoreResponse
 //@   implements ResponseStorer.StoreResponse
-//@   property C06 C10 C19
+//@   property C06 C10 C19 C04
 //@   requires r != nil && r.cache != nil && r.vhn != nil && r.vk != nil
 //@   loop 0 invariant -1 <= rangeindex && rangeindex < len(refs) && 0 <= len(updated) && len(updated) <= rangeindex + 1
 //@   loop 0 invariant 0 <= refIndex && refIndex <= rangeindex ==> len(updated) <= rangeindex
